@@ -261,7 +261,16 @@ def call_unit(res: CheckResult, name: str, progs: List[dict], ic: Any, mode: str
                                               "on family {}]".format(k["what"], r_chk.violated, sw, name))
     missing = [p["pid"] for p in progs if p["pid"] not in logs]
     if missing:
-        raise MachineryError("unit {}: {} programs have no terminated behaviour in the model".format(name, len(missing)))
+        # behaviours longer than the depth bound of the exploration (MaxDepth levels) are cut off: such programs are
+        # left out of this run (recorded in the evidence); runaway recursion in the model is a violation of `Bounded`,
+        # not a missing log.  More than a quarter of a family missing is a failure of the machinery.
+        if 4 * len(missing) > len(progs):
+            raise MachineryError("unit {}: {} of {} programs have no terminated behaviour in the model".format(
+                name, len(missing), len(progs)))
+        res.note("unit {}: {} of {} programs have behaviours beyond the depth bound of the exploration and are left out".format(
+            name, len(missing), len(progs)))
+        gone = set(missing)
+        progs = [p for p in progs if p["pid"] not in gone]
     stats = _outcome_stats(logs)
     for oc in require_outcomes:
         if not stats.get(oc):
@@ -286,7 +295,7 @@ def call_unit(res: CheckResult, name: str, progs: List[dict], ic: Any, mode: str
     # 4. diagnose mismatches with the trace specification (named clause -> properties)
     ndiag = diagnose(res, name, mism, cur, async_sched)
     res.add_unit(name, programs=len(progs), states=r_off.distinct, behaviours_replayed=nrun, mismatches=len(mism),
-                 diagnosed=ndiag, outcomes=stats, mode=mode)
+                 diagnosed=ndiag, outcomes=stats, mode=mode, left_out_beyond_depth_bound=len(missing))
 
 
 def random_unit(res: CheckResult, name: str, progs: List[dict], ic: Any, mode: str = "single",
